@@ -1,0 +1,9 @@
+//go:build verif
+
+package server
+
+// VerifActiveConnectionCount is a read-only view of the connection counter for the verification harness in /verif.
+// It exists only in builds with the `verif` tag.
+func (s *Server) VerifActiveConnectionCount() int64 {
+	return s.activeConnectionCount.Load()
+}
